@@ -22,6 +22,7 @@ func (e *Enc) encodeInstr(fr *Frame, ins ssa.Instruction, st *State, reach Term)
 		elem := t.Type().(*types.Pointer).Elem()
 		ptr := "(mkptr " + ref + " 0)"
 		fr.vals[t] = Val{T: ptr, Typ: t.Type()}
+		fr.locals = append(fr.locals, localCell{t, ref, elem})
 		e.storeCell(st, ptr, elem, e.B.zeroOf(elem))
 		stateSorts[e.B.heapName(elem)] = e.B.heapSort(elem)
 		return st
@@ -487,7 +488,7 @@ func (e *Enc) encodeConvert(fr *Frame, t *ssa.Convert, reach Term) {
 		e.note("int->float conversion in %s treated as exact", fr.fn.Name())
 	case fs == "Flt" && tok:
 		// int64(f): defined only for finite in-range values
-		if e.safetyOn() || true {
+		if e.safetyOn() {
 			e.addObl(fr, "float-to-int-range", implies(reach, fmt.Sprintf("(and ((_ is fin) %s) (< (fval %s) %s.0) (> (fval %s) (- %s.0)))", x.T, x.T, new(big_Int).Add(ti.hi(), bigOne).String(), x.T, new(big_Int).Add(new(big_Int).Neg(ti.lo()), bigOne).String())), "float to integer conversion", t.Pos(), nil)
 		}
 		tr := fmt.Sprintf("(ite (>= (fval %s) 0.0) (to_int (fval %s)) (- (to_int (- (fval %s)))))", x.T, x.T, x.T)
@@ -734,6 +735,7 @@ func (e *Enc) enterLoop(fr *Frame, li *LoopInfo, h *ssa.BasicBlock, inEdges []Te
 				q, q, a0, st.m[k], q, pre, q, st.m[k], q))
 		}
 	}
+	e.restoreLocals(fr, in, st, li.Blocks)
 	// loop-carried registers
 	hphi := map[*ssa.Phi]Val{}
 	for _, ins := range h.Instrs {
